@@ -240,3 +240,18 @@ package entry
 //@   ensures [created-entry-has-no-more-refs] err == nil ==> len(result0.Refs) <= len(data.Refs) && len(result0.Next) <= len(data.Next)
 //@   ensures [created-entry-refs-come-from-the-argument] err == nil ==> forall i int :: 0 <= i && i < len(result0.Refs) ==> exists j int :: 0 <= j && j < len(data.Refs) && result0.Refs[i] == data.Refs[j]
 //@   ensures [created-entry-is-signed-by-identity] err == nil ==> result0.Key == identity.PublicKey
+
+// ---- utils.go ----
+//@ func FindHeads
+//@   requires entries == nil || (isOM(entries) && (forall k string :: has(entries.(*OrderedMap).values, k) ==> validEntry(entries.(*OrderedMap).values[k])))
+//@   lockrequires entries == nil || held[entries.(*OrderedMap).lock] >= 0
+//@   ensures [find-heads-returns-entries-of-the-map] forall i int :: 0 <= i && i < len(result) ==> validEntry(result[i]) && (exists k string :: has(entries.(*OrderedMap).values, k) && entries.(*OrderedMap).values[k] == result[i])
+//@   ensures entries == nil ==> len(result) == 0
+//@   loop 0
+//@     invariant fresh(items)
+//@   loop 1
+//@     invariant fresh(items) && validEntry(e)
+//@   loop 2
+//@     invariant off(result) == 0 && (result == nil || fresh(result))
+//@     invariant forall i int :: 0 <= i && i < len(result) ==> validEntry(result[i])
+//@     invariant forall i int :: 0 <= i && i < len(result) ==> (exists k string :: has(entries.(*OrderedMap).values, k) && entries.(*OrderedMap).values[k] == result[i])
